@@ -7,7 +7,17 @@ Deciding monitors, evaluated at every step:
 
   RECV     fingerprint(receiver) unchanged by the request
   KEEP     every column / schema attribute not named by the request is
-           fingerprint-equal in S and op(S) (all attributes found in __dict__)
+           fingerprint-equal in S and op(S) (all attributes found in __dict__);
+           the key list is the one the mirrored frame operation gives
+  ADDED    add_columns (1-3 columns, new keys and keys the schema already has
+           mixed): the column under every passed key is the passed Column;
+           an existing key is re-defined in place (assignment semantics)
+  UPDATED  update_column(s): every named option has the requested value, i.e.
+           the value of a Column constructed with exactly that option - for
+           real values, for falsy values ("", 0, False, [], {}) and for None
+           (the option is cleared)
+  RELAX    update(checks=None/[]) / update(dtype=None): a frame S rejects only
+           because of the cleared constraint is accepted by update(S)
   MIRROR   accept(S, D) observed  =>  accept(op(S), op(D))
   REJECT   a frame rejected by S because of a bad value in a column the request
            does not touch stays rejected by op(S) after the same request
@@ -16,10 +26,14 @@ Deciding monitors, evaluated at every step:
   MIOPT    set_index(append=True) on / partial reset_index of a MultiIndex keep
            the options of the MultiIndex itself (coerce, strict, name, ...)
   INVERSE  remove after add, rename back, reset after set, select(all) give a
-           schema == S and fingerprint-equal to S
-  INVALID  unknown key / rename onto an existing key / renaming through update /
-           reset without index raise SchemaInitError or ValueError, return
-           nothing and leave the receiver unchanged
+           schema == S and fingerprint-equal to S; remove after a re-defining
+           add gives remove(S, the re-defined keys)
+  INVALID  unknown key / rename onto an existing key / renaming through update
+           (also to a falsy name: "", None, 0) / reset without index raise
+           SchemaInitError or ValueError, return nothing and leave the receiver
+           unchanged
+  Empty requests (add {}, remove [], rename {}, update with no option) are in
+  the alphabet: everything is untouched, all monitors above apply.
   update_checks / set_checks on a component: receiver unchanged, result differs
   only in its checks.
 """
@@ -44,7 +58,9 @@ def new_run():
         PID, "exploration",
         "case = (schema spec with rich attributes, program of 1-5 transforming "
         "requests + interleaved invalid requests) from pvm.c05_gen / "
-        "pvm.c15_prog, run on a real accepted frame; pandas and polars "
+        "pvm.c15_prog, run on a real accepted frame; requests include "
+        "add_columns of 1-3 columns that are new or re-define existing keys, "
+        "updates with real, falsy and None values, and empty requests; pandas and polars "
         "DataFrameSchema; non-trivial = accept(S, D) was observed for the "
         "initial schema, the program has >= 2 steps and at least one deciding "
         "monitor besides RECV was evaluated at every step; distinct = canonical "
@@ -52,11 +68,23 @@ def new_run():
         ["mirrored frame operations: assign / drop / [] / rename / astype / "
          "set_index / reset_index (pandas), with_columns / drop / select / "
          "rename / cast (polars)",
+         "add_columns mirrors assignment (frame[label] = values / with_columns): a "
+         "key the schema already has is re-defined in place by the passed Column, "
+         "new keys are appended; a regex key is only ever re-defined by a regex "
+         "Column with the same pattern (every matching label gets the new values)",
+         "an update option given as None means what it means in the Column "
+         "constructor (no dtype requirement, no checks / parsers, no default, no "
+         "title / description / metadata); RELAX is judged only when nothing but "
+         "the cleared constraint of that column rejects the probe frame under S "
+         "(lazy validation, all reported errors), no drop_invalid_rows in play",
          "set_index / reset_index are judged for pandas only (polars frames "
          "have no index); on polars schemas only RECV is evaluated for them",
          "updates are neutral or relaxing (title, description, metadata, "
-         "nullable, coerce, required, unique=False), replace checks by checks "
-         "the data satisfies, or change int -> float with astype on the frame",
+         "nullable, coerce, required, unique=False, drop_invalid_rows=False, "
+         "report_duplicates, options cleared with None or set to a falsy value), "
+         "tightening in a way the data satisfies (nullable=False, required=True, "
+         "unique=True on distinct values), replace checks by checks the data "
+         "satisfies, or change int -> float with astype on the frame",
          "joint unique= / groupby references to touched columns are not judged",
          "where reset_index inserts the former levels among the column keys is "
          "judged only through MIRROR on ordered=True schemas (pandas prepends)",
@@ -78,11 +106,30 @@ def needs_lazy(schema):
     return any(getattr(c, "drop_invalid_rows", False) for c in comps)
 
 
-def validate(schema, frame):
+def validate(schema, frame, lazy=None):
     with warnings.catch_warnings():
         warnings.simplefilter("ignore")
         return H.run_validate(copy.deepcopy(schema), G.clone(frame),
-                              lazy=needs_lazy(schema))
+                              lazy=needs_lazy(schema) if lazy is None else lazy)
+
+
+def with_values(backend, D, k, dt, vals):
+    """Copy of frame D whose column k holds ``vals`` (pool dtype tag ``dt``)."""
+    if backend == "polars":
+        import datetime
+
+        import polars as pl
+        if dt == "dt":
+            vals = [datetime.datetime.fromisoformat(v) if isinstance(v, str) else v
+                    for v in vals]
+        return D.with_columns(pl.Series(k, vals, dtype=G._pl_dtype(dt)))
+    Db = D.copy()
+    Db[k] = G._pd_series(dt, list(vals)).values
+    return Db
+
+
+def cleared(kw, a):
+    return a in kw and (kw[a] is None or kw[a] == [])
 
 
 def cols_of(fps):
@@ -177,6 +224,7 @@ K_STALE = "reset_index-partial-multiindex-leaves-indexes-stale"
 K_SHALLOW = "shallow-copy-shares-dict-update_checks-mutates-receiver"
 K_ORDER = "reset_index-appends-columns-where-pandas-prepends"
 K_MIOPTS = "set_index-append-rebuilds-MultiIndex-without-its-options"
+K_FALSYNAME = "update_columns-falsy-name-passes-the-rename-guard"
 
 
 def classify(kind, step, w, spec):
@@ -185,6 +233,13 @@ def classify(kind, step, w, spec):
     multi = w.get("index_kind") == "multiindex"
     if kind == "receiver-changed" and m in ("update_checks", "set_checks"):
         return K_SHALLOW
+    if step.get("what") == "update_columns_falsy_name" and (
+            (kind == "invalid-request-returned-a-schema"
+             and w.get("returned", "").endswith("DataFrameSchema"))
+            # the guard let name=0 through to Column(name=0, regex=True)
+            or (kind == "invalid-request-wrong-exception"
+                and w.get("sig") == "AttributeError@utils.py:is_regex")):
+        return K_FALSYNAME
     if kind == "untouched-attribute-changed" and attr == "drop_invalid_rows" \
             and m in ("update_column", "update_columns"):
         return K_PROPS
@@ -303,6 +358,7 @@ class Case:
             run.count("undecided:polars-set/reset_index-not-judged")
             return False
         fp2 = F.fp(S2)
+        self.S2 = S2
         self.keep(step, fp_before, fp2)
         # MIRROR
         D_before = st.frame
@@ -321,8 +377,12 @@ class Case:
             detail = ([[e.reason, str(e.column), str(e.check)] for e in out.errors]
                       if out.errors else repr(out.exc)[:300])
             ca, cb = cols_of(fp_before), cols_of(fp2)
+            asked = {repr(k) for k, kw in (
+                {step["key"]: step["kw"]} if m == "update_column" else
+                step["upd"] if m == "update_columns" else {}).items()
+                if "drop_invalid_rows" in kw}
             lost = sorted(k for k in ca if k in cb and ca[k].get("drop_invalid_rows")
-                          and not cb[k].get("drop_invalid_rows"))
+                          and not cb[k].get("drop_invalid_rows") and k not in asked)
             self.viol("mirror-rejected", step,
                       {"outcome": out.kind, "detail": detail,
                        "lost_drop_invalid_rows": lost,
@@ -337,6 +397,8 @@ class Case:
         # REJECT mirror
         if bad_probe is not None:
             self.reject_mirror(step, bad_probe, S, S2, D_before, st_cols_before)
+        if m in ("update_column", "update_columns"):
+            self.relax(step, S, S2, D_before, st_cols_before)
         self.inverse(step, S, S2, fp_before, rng)
         return not self.structural
 
@@ -344,6 +406,8 @@ class Case:
     def keep(self, step, fa, fb):
         run, m = self.run, step["m"]
         run.count("KEEP:evaluated")
+        if P.is_empty_request(step):
+            run.count(f"KEEP:empty_request:{m}")
         d = F.diff(top_of(fa), top_of(fb))
         if d:
             self.viol("untouched-attribute-changed", step, {"where": "schema", "diff": d},
@@ -353,8 +417,12 @@ class Case:
         named = {}
         expect_keys = list(ka)
         if m == "add_columns":
-            named = {repr(step["col"]["name"]): None}
-            expect_keys = ka + [repr(step["col"]["name"])]
+            # assignment semantics: an existing key keeps its position and gets
+            # the passed Column, new keys are appended in the order given
+            names = [c["name"] for c in P.add_cols(step)]
+            named = {repr(n): None for n in names}
+            expect_keys = ka + [repr(n) for n in names if repr(n) not in ka]
+            self.added_took_effect(step, ka, cb)
         elif m == "remove_columns":
             gone = {repr(k) for k in step["keys"]}
             expect_keys = [k for k in ka if k not in gone]
@@ -382,13 +450,7 @@ class Case:
                 if cd:
                     self.viol("untouched-attribute-changed", step,
                               {"where": f"updated column {k}", "diff": cd[1]}, attr=cd[0])
-                for a, v in kw.items():       # requested value took effect
-                    if a in ("title", "description", "nullable", "required", "unique"):
-                        run.count("KEEP:update_took_effect")
-                        got = cb[repr(k)].get(a, cb[repr(k)].get("_" + a))
-                        if got != v:
-                            self.viol("update-not-applied", step,
-                                      {"column": k, "attr": a, "got": got}, attr=a)
+                self.update_took_effect(step, k, kw, cb.get(repr(k), {}))
             named = {repr(k): None for k in upd}
         elif m == "set_index":
             if step["drop"]:
@@ -428,6 +490,61 @@ class Case:
             if d:
                 self.viol("untouched-attribute-changed", step,
                           {"where": "index", "diff": d}, attr="index")
+
+    def added_took_effect(self, step, ka, cb):
+        """The column found under every key of the request is the Column that
+        was passed (also when the schema already had a column of that key)."""
+        run = self.run
+        for c in P.add_cols(step):
+            k = repr(c["name"])
+            cls = "replacing" if k in ka else "new"
+            run.count(f"ADDED:{cls}:evaluated")
+            if c.get("regex"):
+                run.count("ADDED:replacing:regex_key")
+            passed = self.st.last_added.get(c["name"])
+            if passed is None or k not in cb:
+                continue            # missing key: reported by the key-list monitor
+            # (the schema works on the passed object or on a copy of it: the
+            # name is compared with the key instead)
+            cd = comp_diff(F.fp(passed), cb[k], ignore=("name",))
+            if cd is None and cb[k].get("name") != c["name"]:
+                cd = ("name", f"$.name: {cb[k].get('name')!r} is not the key")
+            if cd:
+                self.viol("add-not-applied", step,
+                          {"column": c["name"], "class": cls, "diff": cd[1]}, attr=cd[0])
+            else:
+                run.count(f"ADDED:{cls}:held")
+
+    def update_took_effect(self, step, k, kw, col_fp):
+        """Every option named by the update has the requested value - the value
+        a Column constructed with exactly that option has (None clears it)."""
+        run, st = self.run, self.st
+        built = st.last_kw.get(k, {})
+        for a, v in kw.items():
+            if a not in built:
+                continue
+            cls = ("none" if v is None else "falsy" if v in ("", 0, False) or v == []
+                   or v == {} else "value")
+            run.count("KEEP:update_took_effect")
+            run.count(f"UPDATED:{cls}:evaluated")
+            run.count(f"UPDATED:{cls}:{a}")
+            try:
+                with warnings.catch_warnings():
+                    warnings.simplefilter("ignore")
+                    ref = F.fp(type(st.schema.columns[k])(**{a: built[a]}), ident=False)
+            except Exception as e:
+                run.count(f"undecided:reference-column-not-constructible:{type(e).__name__}")
+                continue
+            key = a if a in ref else "_" + a
+            if key not in ref:
+                run.count(f"undecided:option-not-an-attribute:{a}")
+                continue
+            got = F.fp(self.S2.columns[k], ident=False).get(key, "<missing>")
+            d = F.diff(ref[key], got, f"$.{a}")
+            if d:
+                self.viol("update-not-applied", step,
+                          {"column": k, "attr": a, "class": cls, "requested": v,
+                           "diff": d}, attr=a)
 
     def index_after_set(self, step, fa, fb):
         run = self.run
@@ -543,6 +660,8 @@ class Case:
             return {step["key"]}
         if m == "update_columns":
             return set(step["upd"])
+        if m == "add_columns":       # re-defined keys
+            return {c["name"] for c in P.add_cols(step)}
         return set()
 
     def pick_reject_probe(self, step, rng):
@@ -607,6 +726,75 @@ class Case:
         else:
             run.count("REJECT:still_rejected")
 
+    # ---- RELAX: a cleared constraint is really gone --------------------------
+    def relax(self, step, S, S2, D, cols_before):
+        """update(checks=None / []) and update(dtype=None): a frame that S
+        rejects *only* because of the cleared constraint of that column is
+        accepted by update(S) (the update leaves frames as they are)."""
+        run, st = self.run, self.st
+        upd = {step["key"]: step["kw"]} if step["m"] == "update_column" else step["upd"]
+        for k, kw in upd.items():
+            no_checks, no_dtype = cleared(kw, "checks"), cleared(kw, "dtype")
+            if not (no_checks or no_dtype):
+                continue
+            if cols_before[k]["regex"] or k not in list(D.columns):
+                run.count("undecided:RELAX-regex-key")
+                continue
+            if needs_lazy(S) or needs_lazy(S2):
+                run.count("undecided:RELAX-drop_invalid_rows-in-play")
+                continue
+            col = S.columns[k]
+            dt = cols_before[k]["dtype"]
+            if no_dtype:
+                # values of another kind: only the dtype requirement (and the
+                # checks / parsers written for the old kind) can object
+                if not (no_checks or not col.checks) or \
+                        not (cleared(kw, "parsers") or not getattr(col, "parsers", None)) \
+                        or st.frame_dtype or st.numeric_only \
+                        or getattr(S, "dtype", None) is not None:
+                    run.count("undecided:RELAX-dtype-other-constraints-remain")
+                    continue
+                other = "int" if dt == "str" else "str"
+                what, vals, odt = "dtype", list(G.POOL[other]), other
+            else:
+                bad = cols_before[k].get("bad")
+                if bad is None:
+                    run.count("undecided:RELAX-no-violating-value-known")
+                    continue
+                vals = list(G.POOL[dt])
+                vals[-1] = bad
+                what, odt = "checks", dt
+            try:
+                # S judges the frame as it was, update(S) the mirrored frame
+                # (another column of the same request may have been cast)
+                Db = with_values(st.backend, D, k, odt, vals)
+                Db2 = with_values(st.backend, st.frame, k, odt, vals)
+            except Exception as e:
+                run.count(f"RELAX:probe_not_buildable:{type(e).__name__}")
+                continue
+            before = validate(S, Db, lazy=True)
+            reasons = {"checks": ("DATAFRAME_CHECK",),
+                       "dtype": ("WRONG_DATATYPE", "DATATYPE_COERCION", "DATAFRAME_CHECK",
+                                 "CHECK_ERROR")}[what]
+            if before.kind != "SchemaErrors" or not before.errors or not all(
+                    str(e.column) == str(k) and e.reason in reasons
+                    for e in before.errors):
+                run.count(f"undecided:RELAX-{what}-original-rejects-not-only-for-that")
+                continue
+            after = validate(S2, Db2)
+            run.count("RELAX:evaluated")
+            run.count(f"RELAX:{what}-cleared")
+            run.count(f"RELAX:{st.backend}")
+            if after.kind != "ok":
+                self.viol("cleared-constraint-still-enforced", step,
+                          {"column": k, "cleared": what, "values": vals,
+                           "outcome": after.kind,
+                           "detail": [[e.reason, str(e.column), str(e.check)]
+                                      for e in after.errors][:4]
+                           if after.errors else repr(after.exc)[:300]}, attr=what)
+            else:
+                run.count("RELAX:accepted")
+
     # ---- INVERSE ------------------------------------------------------------
     def inverse(self, step, S, S2, fpS, rng):
         run, m = self.run, step["m"]
@@ -615,7 +803,14 @@ class Case:
             with warnings.catch_warnings():
                 warnings.simplefilter("ignore")
                 if m == "add_columns":
-                    law, back = "remove-after-add", S2.remove_columns([step["col"]["name"]])
+                    names = [c["name"] for c in P.add_cols(step)]
+                    old = [n for n in names if n in S.columns]
+                    law = "remove-after-replacing-add" if old else "remove-after-add"
+                    back = S2.remove_columns(names)
+                    if old:
+                        # remove(add(S, k: C), k) == remove(S, k)
+                        S = S.remove_columns(old)
+                        fpS = F.fp(S)
                 elif m == "rename_columns":
                     law = "rename-back"
                     back = S2.rename_columns({v: k for k, v in step["map"].items()})
@@ -826,7 +1021,23 @@ def finalize(run, ctx):
                     ("MIRROR:select_columns", 80), ("MIRROR:rename_columns", 80),
                     ("MIRROR:update_column", 160), ("MIRROR:update_columns", 160),
                     ("REJECT:evaluated", 300), ("INVERSE:evaluated", 500),
-                    ("INVERSE:remove-after-add", 80), ("INVERSE:rename-back", 80),
+                    ("INVERSE:remove-after-add", 45),
+                    ("INVERSE:remove-after-replacing-add", 40),
+                    ("INVERSE:rename-back", 80),
+                    ("ADDED:new:evaluated", 80), ("ADDED:replacing:evaluated", 50),
+                    ("ADDED:replacing:regex_key", 4),
+                    ("UPDATED:none:evaluated", 110), ("UPDATED:falsy:evaluated", 90),
+                    ("UPDATED:value:evaluated", 230), ("UPDATED:none:dtype", 40),
+                    ("UPDATED:none:checks", 20), ("UPDATED:none:title", 15),
+                    ("UPDATED:none:metadata", 15),
+                    ("RELAX:evaluated", 15), ("RELAX:checks-cleared", 7),
+                    ("RELAX:dtype-cleared", 7),
+                    ("INVALID:update_columns_falsy_name", 15),
+                    ("KEEP:empty_request:add_columns", 2),
+                    ("KEEP:empty_request:remove_columns", 2),
+                    ("KEEP:empty_request:rename_columns", 2),
+                    ("KEEP:empty_request:update_column", 4),
+                    ("KEEP:empty_request:update_columns", 4),
                     ("INVERSE:reset-after-set", 70), ("INVERSE:select-all", 250),
                     ("INVALID:evaluated", 250),
                     ("ATTR:set_index:evaluated", 1300),
